@@ -179,6 +179,8 @@ type c04Sim struct {
 	hist    []string
 	dead    bool
 	maxPods int
+	// the last rule ended in an Unreserve (used to give a doubly-listed member a cause-specific signature)
+	afterUnreserve bool
 
 	allowed, rejected []string // effects of the current operation on the waiting-pod map
 
@@ -431,7 +433,11 @@ func (s *c04Sim) checkPartition(t *rapid.T) {
 			// the statement itself: every member (child) of the gang is in exactly one of the three sets
 			for _, key := range c04Sorted(sum.Children) {
 				if sets := c04Sets(sum, key); len(sets) != 1 {
-					s.violation(t, c04PartitionSig(sets), "gang %s: member %s is in sets %v (children=%v pending=%v waiting=%v bound=%v)",
+					sig := c04PartitionSig(sets)
+					if s.afterUnreserve && len(sets) > 1 {
+						sig += ":after-unreserve"
+					}
+					s.violation(t, sig, "gang %s: member %s is in sets %v (children=%v pending=%v waiting=%v bound=%v)",
 						g.id, key, sets, c04Sorted(sum.Children), c04Sorted(sum.PendingChildren), c04Sorted(sum.WaitingForBindChildren), c04Sorted(sum.BoundChildren))
 					return
 				}
@@ -502,6 +508,12 @@ func (s *c04Sim) expectReject(p *c04Pod) c04RejectExpect {
 	}
 	if g.effPolicy == extension.GangMatchPolicyOnceSatisfied && s.once[g.grp] {
 		return e // once-satisfied group: exempt
+	}
+	if p.st == c04Bound {
+		// Unreserve of a member the cache already knows as bound (error after the bind was persisted): whether that is a
+		// "rolled-back member" is not decided by the statement; the code rejects the waiting members, both are accepted
+		s.c.Class("rollback-of-bound-member(strict reject not asserted)")
+		return e
 	}
 	e.active = true
 	for _, q := range s.pods {
@@ -624,6 +636,7 @@ func (s *c04Sim) unreserve(t *rapid.T, p *c04Pod, why string) {
 		}
 	}
 	p.phase, p.decision, p.schedObj = c04PhQueue, c04DecNone, nil
+	s.afterUnreserve = true
 	s.disturb(p.gang.grp, "unreserve-between-permits")
 	s.c.ClassIf(partial, "unreserve-after-partial-bind")
 	s.checkReject(t, e, "unreserve("+why+")", p)
@@ -919,6 +932,16 @@ func (s *c04Sim) rules() []c04Rule {
 			s.modelPG(g, "delete")
 			s.c.Class("podgroup-delete")
 		}},
+		// The bind was persisted (the API object carries the node) but the binding cycle still ends in an error
+		// (client-side timeout of the Bind call, failure of a later plugin): Unreserve instead of PostBind. The informer
+		// update carrying the node may or may not have been delivered yet. The pod is never scheduled again.
+		{name: "lateBindError", w: 2, pod: func(p *c04Pod) bool { return p.phase == c04PhPostBindDue }, run: func(t *rapid.T, p *c04Pod, _ *c04Gang) {
+			saw := p.delivered >= p.bindVer
+			s.c.ClassIf(saw, "unreserve-after-informer-saw-bind")
+			s.c.ClassIf(!saw, "unreserve-after-bind-before-informer-saw-it")
+			s.unreserve(t, p, "error after the bind was persisted")
+			p.phase = c04PhDone
+		}},
 	}
 }
 
@@ -927,6 +950,7 @@ func (s *c04Sim) step(t *rapid.T, rules []c04Rule) {
 	if s.dead {
 		return
 	}
+	s.afterUnreserve = false
 	type cand struct {
 		r    *c04Rule
 		pods []*c04Pod
